@@ -116,6 +116,7 @@ class PathCtx:
         self.reach_unknown = 0
         self.hints = []
         self.note = None
+        self.last_classes = None
 
     # reachability twin: `assert False` at the assertion point must be violated (pc satisfiable)
     def reach(self):
@@ -162,6 +163,8 @@ class PathCtx:
             if z3.is_true(cs):           # closed formula that simplifies to true: no solver call needed
                 self.proved += 1
                 return True
+        if classes:
+            self.last_classes = classes
         excl = []
         tries = 0
         while True:
@@ -287,6 +290,8 @@ def run_job(args):
                 funcs.add(fn.split('/tracklib/', 1)[1] + ':' + frame.f_code.co_qualname)
 
     def path(eng):
+        from symx.world import WORLD
+        WORLD.restore()         # every path starts from the library's state as imported
         patches = Patches(check.patches(job))
         ctx = PathCtx(eng, check, job, patches, known_classes)
         tracing = state['first'] and trace_functions
@@ -316,7 +321,8 @@ def run_job(args):
         if eng.swallowed_abort:
             raise _Abort()
         # encoding validation: symbolic outputs under the path's model vs the real code on the same numbers
-        if ctx.outputs and res['validated'] + len(res['mismatches']) < 400:
+        has_concrete = check.concrete.__func__ is not Check.concrete
+        if (ctx.outputs or has_concrete) and res['validated'] + len(res['mismatches']) + state.get('plain', 0) < 400 and not any(f['kind'] in ('unsupported',) for f in ctx.findings):
             m = eng.nice_model([]) or eng.path_model()
             inputs = eng.input_values(m) if m is not None else None
             if inputs is not None and any(isinstance(v, fractions.Fraction) and fractions.Fraction(float(v)) != v for v in inputs.values()):
@@ -327,7 +333,50 @@ def run_job(args):
                         cres = check.concrete(job, to_float_inputs(inputs))
                 except Exception as e:
                     cres = dict(outputs=None, error='%s: %s' % (type(e).__name__, e))
-                if cres is not None and cres.get('outputs') is not None:
+                confirmed = False
+                if cres is not None and cres.get('violation') and not any(f['kind'] in ('violation', 'known') for f in ctx.findings):
+                    # the real code, run on a model of this path with ordinary numbers, is judged wrong by the concrete oracle although the value
+                    # model followed the path without a finding.  Two causes: behaviour that depends on the KIND of value (numpy scalar, bool,
+                    # int) - it shows on every model of the path - or binary rounding at the particular (border) model - it does not.  The
+                    # verdict is therefore asked again on a second model of the same path in which every symbolic input takes another value;
+                    # only a violation on both is reported, a single one is kept as a validation mismatch (inconclusive).
+                    confirmed = True
+                    diffs = []
+                    for name in eng.input_order:
+                        v = eng.inputs[name]
+                        if not isinstance(v, float):
+                            diffs.append(v != m.eval(v, model_completion=True))
+                    if diffs:
+                        try:
+                            m2 = eng.nice_model(diffs) or eng.path_model(diffs) or eng.nice_model([z3.Or(diffs)]) or eng.path_model([z3.Or(diffs)])
+                        except Exception:
+                            m2 = None
+                        if m2 is not None:
+                            try:
+                                with contextlib.redirect_stdout(_DEVNULL):
+                                    cres2 = check.concrete(job, to_float_inputs(eng.input_values(m2)))
+                            except Exception as e:
+                                cres2 = None
+                            if not (cres2 and cres2.get('violation')):
+                                confirmed = False
+                                res['mismatches'].append(dict(inputs=jsonable(inputs), diff=['concrete oracle: %s (not on a second model of the path: rounding at this model)' % str(cres.get('violation'))[:200]]))
+                if confirmed:
+                    cls = None
+                    for name, pred in (ctx.last_classes or {}).items():
+                        try:
+                            if core.model_value(m, pred) is True:
+                                cls = name
+                                break
+                        except Exception:
+                            pass
+                    if cls is not None and cls in known_classes:
+                        ctx.findings.append(dict(kind='known', cls=cls, what='concrete run of the path model', inputs=inputs, observed=cres.get('violation')))
+                    else:
+                        ctx.findings.append(dict(kind='violation', what='the real code run on a model of a proved path violates the property (behaviour the value model does not show)',
+                                                 inputs=inputs, cls=cls, observed=cres.get('violation'), detail=cres.get('detail')))
+                if not ctx.outputs:
+                    state['plain'] = state.get('plain', 0) + 1
+                elif cres is not None and cres.get('outputs') is not None:
                     bad = compare_outputs(m, ctx.outputs, cres['outputs'])
                     if bad:
                         res['mismatches'].append(dict(inputs=jsonable(inputs), diff=bad[:3]))
@@ -436,14 +485,130 @@ def main(check, argv=None):
     results = []
     nproc = max(1, min(a.jobs, len(args)))
     if nproc == 1:
+        _snapshot_world()
         for x in args:
             results.append(run_job(x))
     else:
-        ctx = mp.get_context('fork')
-        with ctx.Pool(nproc) as pool:
-            for r in pool.imap_unordered(run_job, args, chunksize=1):
-                results.append(r)
+        hard = float(os.environ.get('VERIF_JOB_HARD_LIMIT', '') or max(90.0, 0.75 * budget))
+        results = run_pool(args, nproc, deadline, hard)
     return finish(check, tier, seed, jobs, results, known, time.time() - t0, budget)
+
+
+def _snapshot_world():
+    """process-wide state of the library as imported, before any job ran (see symx/world.py)"""
+    from symx.world import WORLD
+    if WORLD.taken:
+        return
+    import importlib
+    for name in ('tracklib', 'tracklib.core', 'tracklib.core.obs_time', 'tracklib.core.obs_coords', 'tracklib.core.obs', 'tracklib.core.track', 'tracklib.core.track_collection',
+                 'tracklib.core.operators', 'tracklib.core.kernel', 'tracklib.core.utils', 'tracklib.core.network', 'tracklib.core.spatial_index', 'tracklib.core.raster', 'tracklib.core.bbox',
+                 'tracklib.algo.analytics', 'tracklib.algo.cinematics', 'tracklib.algo.comparison', 'tracklib.algo.dynamics', 'tracklib.algo.filtering', 'tracklib.algo.interpolation',
+                 'tracklib.algo.mapping', 'tracklib.algo.segmentation', 'tracklib.algo.simplification', 'tracklib.algo.summarising', 'tracklib.util.geometry',
+                 'tracklib.io.track_writer', 'tracklib.io.track_reader', 'tracklib.io.track_format', 'tracklib.io.network_writer', 'tracklib.io.network_reader', 'tracklib.io.network_format'):
+        try:
+            with contextlib.redirect_stdout(_DEVNULL):
+                importlib.import_module(name)
+        except Exception:
+            pass
+    try:
+        WORLD.snapshot()
+    except Exception:
+        pass
+
+
+def _worker_loop(conn):
+    _snapshot_world()
+    while True:
+        try:
+            x = conn.recv()
+        except EOFError:
+            return
+        if x is None:
+            return
+        try:
+            r = run_job(x)
+        except BaseException as e:          # never let a worker die silently
+            r = _lost_job(x[1], 'worker error %s: %s' % (type(e).__name__, e), error=True)
+        try:
+            conn.send(r)
+        except Exception as e:
+            conn.send(_lost_job(x[1], 'result could not be returned: %s' % e, error=True))
+
+
+def _lost_job(job, why, error=False):
+    return dict(job=job, findings=[dict(kind='unknown', what='job not completed: ' + why, inputs=None, note=None)] if not error else [], samples=[], functions=[], validated=0, mismatches=[],
+                reached=0, reach_unknown=1, proved=0, error=('job failed: ' + why) if error else None,
+                stats=dict(paths=0, queries=0, unsat=0, sat=0, unknown=0, solver_s=0.0), xc_disagreements=[], exhaustive=False, pending_left=1, wall_s=0.0, timed_out=True)
+
+
+def run_pool(args, nproc, deadline, hard):
+    """fork pool with a hard wall-clock limit per job: a solver call that ignores its timeout (seen inside z3's non-linear bound
+    propagation on big rationals) must not hang the check.  A job still running `hard` seconds after it started - or 30 s after the
+    exploration deadline, whichever is later - is killed together with its worker, reported as not exhausted (inconclusive),
+    and a fresh worker takes over."""
+    from multiprocessing.connection import wait
+    ctx = mp.get_context('fork')
+    todo = list(reversed(args))
+    workers = {}          # parent connection -> [process, job args or None, start time]
+
+    def spawn():
+        a, b = ctx.Pipe()
+        p = ctx.Process(target=_worker_loop, args=(b,), daemon=True)
+        p.start()
+        b.close()
+        workers[a] = [p, None, 0.0]
+        return a
+
+    def feed(c):
+        if todo:
+            x = todo.pop()
+            workers[c][1], workers[c][2] = x, time.time()
+            c.send(x)
+        else:
+            workers[c][1] = None
+            try:
+                c.send(None)
+            except Exception:
+                pass
+    for _ in range(nproc):
+        feed(spawn())
+    results = []
+    while any(w[1] is not None for w in workers.values()):
+        busy = [c for c, w in workers.items() if w[1] is not None]
+        for c in wait(busy, timeout=2.0):
+            w = workers[c]
+            try:
+                r = c.recv()
+            except (EOFError, OSError):
+                r = _lost_job(w[1][1], 'the worker process died', error=True)
+                w[0].join(1)
+                del workers[c]
+                c = spawn()
+            results.append(r)
+            feed(c)
+        now = time.time()
+        for c, w in list(workers.items()):
+            if w[1] is not None and now - w[2] > hard and now > deadline + 30:
+                try:
+                    w[0].kill()
+                    w[0].join(5)
+                except Exception:
+                    pass
+                results.append(_lost_job(w[1][1], 'killed after %.0f s (hard per-job limit %.0f s; a solver call did not honour its timeout)' % (now - w[2], hard)))
+                del workers[c]
+                try:
+                    c.close()
+                except Exception:
+                    pass
+                feed(spawn())
+    for c, w in workers.items():
+        try:
+            w[0].join(2)
+            if w[0].is_alive():
+                w[0].kill()
+        except Exception:
+            pass
+    return results
 
 
 def run_crosshair(check, per_condition_timeout=90):
